@@ -144,6 +144,7 @@ class Sock:
         self.takes = list(takes or [])   # bytes the k-th send call of one operation takes (then: everything)
         self.ti = 0
         self.closed = False
+        self.exc = EOFError     # what recv raises when the scripted stream breaks off
         self.piece = 0          # > 0: every send call takes at most this many bytes
         self.sched = None       # deterministic scheduler: every send call is a scheduling point
         self.new_op = {}
@@ -157,7 +158,7 @@ class Sock:
         if n <= 0:
             raise AssertionError('recv(%d)' % n)
         if not self.chunks:
-            raise EOFError('scripted stream exhausted')
+            raise self.exc('scripted stream exhausted')
         c = self.chunks[0]
         if len(c) <= n:
             self.chunks.pop(0)
@@ -376,8 +377,8 @@ def _exc_code(e):
         return 2
     if isinstance(e, ValueError):
         return 3
-    if isinstance(e, EOFError):
-        return 4
+    if isinstance(e, (EOFError, ConnectionError, TimeoutError)) or type(e) is OSError:
+        return 4                      # the scripted stream broke off
     if isinstance(e, AttributeError):
         return 5
     return 90
@@ -1511,6 +1512,23 @@ def tie(ctx):
     dist['cpx_sessions'] = n_c
     dist['cpx_event_kinds'] = ekinds
 
+    # ---- N. connection histories on ONE SocketTransport object (disconnect()/connect() between streams that may break off mid-frame)
+    terms, exp, ncs = [], [], []
+    for i in range(ctx.scale(150, 2500)):
+        cc = _conn_case(rng)
+        ss = cc['sessions']
+        evs = []
+        for k, s_ in enumerate(ss):
+            if k:
+                evs.append('TReconnect %s' % coqrun.zlistlist(s_['pieces']))
+            evs += ['TRead'] * s_['reads']
+        terms.append('concat (map enc_res (t_run %s [%s]))' % (coqrun.zlistlist(ss[0]['pieces']), '; '.join(evs)))
+        outs = impl_connections('tcp', [[s_['pieces'], s_['reads'], s_['exc']] for s_ in ss])
+        exp.append(sum([sum(o, []) for o in outs], []))
+        ncs.append(dict(cc, what='connection history on one SocketTransport differs from t_run'))
+    run_blocks('c18n', terms, exp, lambda bi: ncs[bi], 50)
+    dist['connection_histories'] = len(ncs)
+
     # ---- P. one CPXPacket object: attribute assignments between encodes (wireData / TCP writePacket), also after filling it from bytes
     def pop_term(op):
         if op[0] == 'enc':
@@ -2001,6 +2019,80 @@ def _check_writers(writers, piece, schedule):
     return None
 
 
+_EXC_KINDS = {'eof': EOFError, 'reset': ConnectionResetError, 'oserror': OSError, 'timeout': TimeoutError}
+
+
+def impl_connections(kind, sessions):
+    """ONE transport object, several connections: sessions = [[pieces, nreads, exc_kind], ...]; between sessions the real
+    disconnect() and connect() are called.  kind 'tcp' (SocketTransport) or 'uart' (UARTTransport, incl. its connect handshake)."""
+    _, tr = _mods()
+    outs = []
+    t = None
+    with _quiet():
+        for k, (pieces, nreads, exck) in enumerate(sessions):
+            if kind == 'tcp':
+                sock = Sock([bytes(c) for c in pieces])
+                sock.exc = _EXC_KINDS[exck]
+                if t is None:
+                    t = _transport([])
+                    t._socket = sock
+                else:
+                    t.disconnect()
+                    _FakeSocketModule.next_sock = sock
+                    t.connect()
+            else:
+                data = b''.join(bytes(c) for c in pieces)
+                if t is None:
+                    t = _uart(data)
+                else:
+                    t.disconnect()
+                    _FakeSerialModule.next_port = FakeSerial(bytes([255, 0]) + data)
+                    t.connect()
+            res = []
+            for _ in range(nreads):
+                try:
+                    p = t.readPacket()
+                    res.append([0] + _enc_pkt(p))
+                except Exception as e:  # noqa
+                    res.append([1, _exc_code(e)])
+            outs.append(res)
+    return outs
+
+
+def _conn_case(rng):
+    sessions = []
+    for k in range(rng.choice([2, 2, 3])):
+        ps = _rand_pkts(rng, rng.choice([1, 2, 3]))
+        stream = b''.join(_frame_ref(a[0], a[1], a[2], a[3], 0, a[4]) for a in ps)
+        L = len(stream)
+        cut_at = L
+        if k < 2 and rng.random() < 0.8:
+            cut_at = rng.randrange(max(1, L - len(ps[-1][4]) - 4 + 1), L)       # the stream breaks off inside its last frame
+        pieces = _cut(stream[:cut_at], _rand_cuts(rng, cut_at, _bounds(ps)))
+        sessions.append({'packets': ps, 'cut_at': cut_at, 'pieces': [list(c) for c in pieces], 'reads': len(ps) + rng.randrange(0, 2),
+                         'exc': rng.choice(sorted(_EXC_KINDS))})
+    return {'kind': 'tcp', 'sessions': sessions}
+
+
+def _check_connections(kind, sessions):
+    """each connection of one transport object is re-assembled into exactly the packets ITS stream carries, whatever an earlier
+    connection left unfinished"""
+    outs = impl_connections(kind, [[s_['pieces'], s_['reads'], s_['exc']] for s_ in sessions])
+    for k, s_ in enumerate(sessions):
+        L = 0
+        want = []
+        for a in s_['packets']:
+            L += len(a[4]) + (4 if kind == 'tcp' else 5)
+            if L <= s_['cut_at']:
+                want.append([0, a[0], a[1], a[2], a[3], 0, len(a[4]), len(a[4])] + list(a[4]))
+        want = (want + [[1, 4]] * s_['reads'])[:s_['reads']]
+        if outs[k] != want:
+            i = next((j for j, (x, y) in enumerate(zip(outs[k], want)) if x != y), 0)
+            return {'observed': outs[k][i:i + 2], 'expected': want[i:i + 2],
+                    'detail': 'connection no. %d of the same transport object, read no. %d' % (k, i)}
+    return None
+
+
 def impl_history(build, ops):
     """one real CPXPacket object: build = [s, d, f, last, data]; ops: ['enc'] (wireData), ['write'] (SocketTransport.writePacket),
     ['uwrite'] (UARTTransport.writePacket), ['set', field, value], ['decode', bytes].  Returns the encoded outputs."""
@@ -2305,6 +2397,7 @@ def _check_backlog(pkts, cuts, events):
 
 
 _CHECKS = {
+    'reconnect_splices_old_bytes': lambda c: _check_connections(c['kind'], c['sessions']),
     'transaction_loses_queued_packets': lambda c: _check_transactions(c['packets'], c['cuts'], c['events']),
     'registered_functions_misrouted': lambda c: _check_transactions(c['packets'], c['cuts'], c['events'], functions=c['functions']),
     'encode_ignores_field_change': lambda c: _check_history(c['build'], c['ops']),
@@ -2419,6 +2512,24 @@ def oracle(ctx, deep=False):
     for big in (65533, 40000) if ctx.thorough or deep else (65533,):
         ps = [[3, 1, 5, 0, _pat(3, 1, big)], [1, 3, 5, 1, [1]]]
         chk('stream_reassembly_mismatch', {'packets': ps, 'cuts': sorted(rng.sample(range(1, big), 20)) + [big + 4 + 1]})
+    # 3b. connection histories on ONE transport object: stream 1 breaks off at EVERY byte offset of a frame, disconnect(), connect(),
+    #     stream 2 (smallest first)
+    old_p, new_ps = [1, 3, 3, 0, [0x5E, 1, 2]], [[4, 3, 5, 1, [9]], [1, 3, 3, 0, [7, 7]]]
+    for kind in ('tcp', 'uart'):
+        hdr = 4 if kind == 'tcp' else 5
+        ref = (lambda a: _frame_ref(a[0], a[1], a[2], a[3], 0, a[4])) if kind == 'tcp' else (lambda a: _uart_frame_ref(a[0], a[1], a[2], a[3], 0, a[4]))
+        for lead in (0, 1):
+            ps1 = [new_ps[1]] * lead + [old_p]
+            full = b''.join(ref(a) for a in ps1)
+            start = len(full) - len(ref(old_p))
+            for off in range(start + 1, len(full)):
+                for exck in (('eof', 'reset', 'oserror', 'timeout') if kind == 'tcp' else ('eof',)):
+                    s2 = b''.join(ref(a) for a in new_ps)
+                    chk('reconnect_splices_old_bytes', {'kind': kind, 'sessions': [
+                        {'packets': ps1, 'cut_at': off, 'pieces': [list(full[:off])], 'reads': len(ps1), 'exc': exck},
+                        {'packets': new_ps, 'cut_at': len(s2), 'pieces': [list(c) for c in _cut(s2, [1, 3, 6])], 'reads': 3, 'exc': 'eof'}]})
+    for _ in range(ctx.scale(300, 5000)):
+        chk('reconnect_splices_old_bytes', _conn_case(rng))
     # 4. router FIFO
     for _ in range(ctx.scale(600, 10000) * (3 if deep else 1)):
         ps = _rand_pkts(rng, rng.choice([1, 2, 3, 5, 8, 12]), tag=True)
